@@ -39,9 +39,11 @@ int g_sg_n; secp256k1_ge g_sg_r0; secp256k1_gej g_sg_a0;
   __CPROVER_ensures(__CPROVER_old(g_sg_n) != 0 ==> (FE_KEEP(g_sg_r0.x) && FE_KEEP(g_sg_r0.y) && g_sg_r0.infinity == __CPROVER_old(g_sg_r0.infinity) && \
      FE_KEEP(g_sg_a0.x) && FE_KEEP(g_sg_a0.y) && FE_KEEP(g_sg_a0.z) && g_sg_a0.infinity == __CPROVER_old(g_sg_a0.infinity)))
 #elif defined(LOG_GE_SET_GEJ_LAST)
-secp256k1_ge g_sgl_r; secp256k1_gej g_sgl_a;
-#define SET_GEJ_LAST_GHOST g_sgl_r, g_sgl_a
-#define SG2_LOG __CPROVER_assigns(*r, a->x, a->y, a->z, g_sgl_r, g_sgl_a) \
+struct { secp256k1_ge r; secp256k1_gej a; } g_sgl;
+#define g_sgl_r g_sgl.r
+#define g_sgl_a g_sgl.a
+#define SET_GEJ_LAST_GHOST g_sgl
+#define SG2_LOG __CPROVER_assigns(*r, a->x, a->y, a->z, g_sgl) \
   __CPROVER_ensures(FE_EQ(g_sgl_r.x, r->x) && FE_EQ(g_sgl_r.y, r->y) && g_sgl_r.infinity == r->infinity && \
      FE_EQ_OLD(g_sgl_a.x, a->x) && FE_EQ_OLD(g_sgl_a.y, a->y) && FE_EQ_OLD(g_sgl_a.z, a->z) && g_sgl_a.infinity == __CPROVER_old(a->infinity))
 #else
@@ -55,11 +57,14 @@ static void secp256k1_ge_set_gej(secp256k1_ge *r, secp256k1_gej *a) SET_GEJ_CONT
 static void secp256k1_ge_set_gej_var(secp256k1_ge *r, secp256k1_gej *a) SET_GEJ_CONTRACT2;
 
 #ifdef LOG_ECMULT_GEN_LAST
-secp256k1_scalar g_genl_a; secp256k1_gej g_genl_r; const secp256k1_ecmult_gen_context *g_genl_ctx;
-#define ECMULT_GEN_LAST_GHOST g_genl_a, g_genl_r, g_genl_ctx
+struct { secp256k1_scalar a; secp256k1_gej r; const secp256k1_ecmult_gen_context *ctx; } g_genl;
+#define g_genl_a g_genl.a
+#define g_genl_r g_genl.r
+#define g_genl_ctx g_genl.ctx
+#define ECMULT_GEN_LAST_GHOST g_genl
 static void secp256k1_ecmult_gen(const secp256k1_ecmult_gen_context *ctx, secp256k1_gej *r, const secp256k1_scalar *a)
 __CPROVER_requires(__CPROVER_w_ok(r, sizeof(*r)) && __CPROVER_r_ok(a, sizeof(*a)) && scalar_ok(a) && __CPROVER_r_ok(ctx, sizeof(*ctx)))
-__CPROVER_assigns(*r, g_genl_a, g_genl_r, g_genl_ctx)
+__CPROVER_assigns(*r, g_genl)
 __CPROVER_ensures(SC_EQ_OLD(g_genl_a, *a) && FE_EQ(g_genl_r.x, r->x) && FE_EQ(g_genl_r.y, r->y) && FE_EQ(g_genl_r.z, r->z) && g_genl_r.infinity == r->infinity && g_genl_ctx == ctx)
 __CPROVER_ensures(gej_ok(r))
 ;
@@ -84,14 +89,25 @@ __CPROVER_ensures(__CPROVER_old(g_sv_n) != 0 ==> (g_sv_v0 == __CPROVER_old(g_sv_
 
 /* ---- secp256k1_ecdsa_sig_sign as an oracle with LAST-CALL log (its gates: unit C01.sig_sign) ---- */
 #ifdef LOG_SIG_SIGN
-unsigned int g_ss_n; int g_ss_ret, g_ss_has_recid, g_ss_recid; secp256k1_scalar g_ss_sec, g_ss_msg, g_ss_non, g_ss_r, g_ss_s;
-const secp256k1_ecmult_gen_context *g_ss_ctx;
-#define SIG_SIGN_GHOST g_ss_n, g_ss_ret, g_ss_has_recid, g_ss_recid, g_ss_sec, g_ss_msg, g_ss_non, g_ss_r, g_ss_s, g_ss_ctx
+/* each ghost log is ONE object (a struct) so that it is one target in assigns clauses: DFCC's write-set inclusion checks are
+ * quadratic in the number of targets, and these logs are written inside loops closed by loop contracts */
+struct { unsigned int n; int ret, has_recid, recid; secp256k1_scalar sec, msg, non, r, s; const secp256k1_ecmult_gen_context *ctx; } g_ss;
+#define g_ss_n g_ss.n
+#define g_ss_ret g_ss.ret
+#define g_ss_has_recid g_ss.has_recid
+#define g_ss_recid g_ss.recid
+#define g_ss_sec g_ss.sec
+#define g_ss_msg g_ss.msg
+#define g_ss_non g_ss.non
+#define g_ss_r g_ss.r
+#define g_ss_s g_ss.s
+#define g_ss_ctx g_ss.ctx
+#define SIG_SIGN_GHOST g_ss
 static int secp256k1_ecdsa_sig_sign(const secp256k1_ecmult_gen_context *ctx, secp256k1_scalar *sigr, secp256k1_scalar *sigs, const secp256k1_scalar *seckey, const secp256k1_scalar *message, const secp256k1_scalar *nonce, int *recid)
 __CPROVER_requires(__CPROVER_w_ok(sigr, sizeof(*sigr)) && __CPROVER_w_ok(sigs, sizeof(*sigs)) && __CPROVER_r_ok(seckey, sizeof(*seckey)) && __CPROVER_r_ok(message, sizeof(*message)) && __CPROVER_r_ok(nonce, sizeof(*nonce)))
 __CPROVER_requires(recid == NULL || __CPROVER_w_ok(recid, sizeof(*recid)))
 __CPROVER_requires(scalar_ok(seckey) && scalar_ok(message) && scalar_ok(nonce))
-__CPROVER_assigns(*sigr, *sigs; recid != NULL: *recid; g_ss_n, g_ss_ret, g_ss_has_recid, g_ss_recid, g_ss_sec, g_ss_msg, g_ss_non, g_ss_r, g_ss_s, g_ss_ctx)
+__CPROVER_assigns(*sigr, *sigs; recid != NULL: *recid; g_ss)
 __CPROVER_ensures(__CPROVER_return_value == 0 || __CPROVER_return_value == 1)
 __CPROVER_ensures(scalar_ok(sigr) && scalar_ok(sigs) && (recid == NULL || (*recid >= 0 && *recid <= 3)))
 __CPROVER_ensures(g_ss_n == __CPROVER_old(g_ss_n) + 1 && g_ss_ret == __CPROVER_return_value && g_ss_ctx == ctx)
@@ -107,13 +123,24 @@ __CPROVER_ensures(g_ss_has_recid == (recid != NULL) && (recid == NULL || g_ss_re
 #ifdef LOG_NONCE_FN
 unsigned int verif_nonce_calls;
 size_t g_nk;
-unsigned int g_nf_impl_n; unsigned int g_nf_counter; const unsigned char *g_nf_msg32, *g_nf_key32, *g_nf_algo16, *g_nf_out; const void *g_nf_data; const secp256k1_hash_ctx *g_nf_hctx;
-unsigned char g_nf_data_byte, g_nf_out_byte;
+struct { unsigned int impl_n, counter; const unsigned char *msg32, *key32, *algo16, *out; const void *data; const secp256k1_hash_ctx *hctx;
+         unsigned char data_byte, out_byte; unsigned int st_n; int st_ret; } g_nf;
+#define g_nf_impl_n g_nf.impl_n
+#define g_nf_counter g_nf.counter
+#define g_nf_msg32 g_nf.msg32
+#define g_nf_key32 g_nf.key32
+#define g_nf_algo16 g_nf.algo16
+#define g_nf_out g_nf.out
+#define g_nf_data g_nf.data
+#define g_nf_hctx g_nf.hctx
+#define g_nf_data_byte g_nf.data_byte
+#define g_nf_out_byte g_nf.out_byte
+#define g_st_n g_nf.st_n      /* user-callback stub (harness/C01/nonce_stub.c): calls, last return value */
+#define g_st_ret g_nf.st_ret
 #ifdef NONCE_FN_EXPECT
 const secp256k1_hash_ctx *g_nfx_hctx; const unsigned char *g_nfx_msg32, *g_nfx_key32; const void *g_nfx_data;
 #endif
-unsigned int g_st_n; int g_st_ret;   /* user-callback stub (harness/C01/nonce_stub.c): calls, last return value */
-#define NONCE_FN_GHOST verif_nonce_calls, g_nf_impl_n, g_nf_counter, g_nf_msg32, g_nf_key32, g_nf_algo16, g_nf_out, g_nf_data, g_nf_hctx, g_nf_data_byte, g_nf_out_byte, g_st_n, g_st_ret
+#define NONCE_FN_GHOST verif_nonce_calls, g_nf
 static int nonce_function_rfc6979_impl(const secp256k1_hash_ctx *hash_ctx, unsigned char *nonce32, const unsigned char *msg32, const unsigned char *key32, const unsigned char *algo16, void *data, unsigned int counter)
 __CPROVER_requires(hash_ctx != NULL && __CPROVER_w_ok(nonce32, 32) && __CPROVER_r_ok(msg32, 32) && __CPROVER_r_ok(key32, 32))
 __CPROVER_requires((algo16 == NULL || __CPROVER_r_ok(algo16, 16)) && (data == NULL || __CPROVER_r_ok(data, 32)))
@@ -123,7 +150,8 @@ __CPROVER_requires((algo16 == NULL || __CPROVER_r_ok(algo16, 16)) && (data == NU
  * g_nfx_* are set by the harness and never assigned by code or contracts. */
 __CPROVER_requires(hash_ctx == g_nfx_hctx && msg32 == g_nfx_msg32 && key32 == g_nfx_key32 && algo16 == NULL && data == g_nfx_data && counter == verif_nonce_calls)
 #endif
-__CPROVER_assigns(__CPROVER_object_upto(nonce32, 32), verif_nonce_calls, g_nf_impl_n, g_nf_counter, g_nf_msg32, g_nf_key32, g_nf_algo16, g_nf_out, g_nf_data, g_nf_hctx, g_nf_data_byte, g_nf_out_byte)
+__CPROVER_assigns(__CPROVER_object_upto(nonce32, 32), verif_nonce_calls, g_nf)
+__CPROVER_ensures(g_st_n == __CPROVER_old(g_st_n) && g_st_ret == __CPROVER_old(g_st_ret))
 __CPROVER_ensures(__CPROVER_return_value == 1)
 __CPROVER_ensures(verif_nonce_calls == __CPROVER_old(verif_nonce_calls) + 1 && g_nf_impl_n == __CPROVER_old(g_nf_impl_n) + 1)
 __CPROVER_ensures(g_nf_counter == counter && g_nf_msg32 == msg32 && g_nf_key32 == key32 && g_nf_algo16 == algo16 && g_nf_out == nonce32 && g_nf_data == data && g_nf_hctx == hash_ctx)
@@ -193,6 +221,8 @@ __CPROVER_ensures(__CPROVER_old(g_sr_n) != 0 ==> (g_sr_v0 == __CPROVER_old(g_sr_
 #ifndef VERIF_NATIVE
 /* value of a field element of magnitude <= 8 reduced mod p (what fe_normalize computes) */
 static inline wide fmodp(const secp256k1_fe *a) { wide v = fval(a), p = P_(); int i; for (i = 0; i < 20; i++) if (v >= p) v -= p; return v; }
+/* same for magnitude <= 1 (outputs of ge_set_gej / ge_set_xo_var contracts: ge_ok1): value < 2^257 < 3p */
+static inline wide fmodp1(const secp256k1_fe *a) { wide v = fval(a), p = P_(); int i; for (i = 0; i < 3; i++) if (v >= p) v -= p; return v; }
 static inline wide le256(const unsigned char *b) { wide v = 0; int i; for (i = 31; i >= 0; i--) v = (v << 8) | W(b[i]); return v; }
 static inline wide modn(wide v) { wide n = N_(); return v >= n ? v - n : v; }   /* for v < 2n */
 #endif
